@@ -243,10 +243,64 @@ type L2 = Layered<B<L1>, L1>;
 type L3 = Layered<B<L2>, L2>;
 type L4 = Layered<B<L3>, L3>;
 
+/// Counts the `enabled` passes the composed collector is asked for (finding F3 concerns exactly the emissions for which
+/// no pass ran because the cached interest was `always`); forwards everything else untouched.
+static TAP_ENABLED: std::sync::atomic::AtomicU64 = std::sync::atomic::AtomicU64::new(0);
+struct Tap<C>(C);
+impl<C: Collect> Collect for Tap<C> {
+    fn on_register_dispatch(&self, d: &Dispatch) {
+        self.0.on_register_dispatch(d)
+    }
+    fn register_callsite(&self, m: &'static Metadata<'static>) -> Interest {
+        self.0.register_callsite(m)
+    }
+    fn enabled(&self, m: &Metadata<'_>) -> bool {
+        TAP_ENABLED.fetch_add(1, std::sync::atomic::Ordering::SeqCst);
+        self.0.enabled(m)
+    }
+    fn max_level_hint(&self) -> Option<LevelFilter> {
+        self.0.max_level_hint()
+    }
+    fn new_span(&self, a: &span::Attributes<'_>) -> span::Id {
+        self.0.new_span(a)
+    }
+    fn record(&self, s: &span::Id, v: &span::Record<'_>) {
+        self.0.record(s, v)
+    }
+    fn record_follows_from(&self, s: &span::Id, f: &span::Id) {
+        self.0.record_follows_from(s, f)
+    }
+    fn event_enabled(&self, e: &Event<'_>) -> bool {
+        self.0.event_enabled(e)
+    }
+    fn event(&self, e: &Event<'_>) {
+        self.0.event(e)
+    }
+    fn enter(&self, s: &span::Id) {
+        self.0.enter(s)
+    }
+    fn exit(&self, s: &span::Id) {
+        self.0.exit(s)
+    }
+    fn clone_span(&self, s: &span::Id) -> span::Id {
+        self.0.clone_span(s)
+    }
+    fn try_close(&self, s: span::Id) -> bool {
+        self.0.try_close(s)
+    }
+    fn current_span(&self) -> span::Current {
+        self.0.current_span()
+    }
+    unsafe fn downcast_raw(&self, id: std::any::TypeId) -> Option<std::ptr::NonNull<()>> {
+        self.0.downcast_raw(id)
+    }
+}
+
 fn finish<C: Collect + Send + Sync + 'static>(c: C, wrap: &str, metas: &[&'static Metadata<'static>]) -> (Dispatch, Value) {
     // the summary the composed collector publishes (C08, whole-stack clause)
     let hint = hint_rank(c.max_level_hint());
     let cs: Vec<Value> = metas.iter().map(|m| json!({"m": meta_json(m), "cs": interest_name(&c.register_callsite(m))})).collect();
+    let c = Tap(c);
     let d = match wrap {
         "box" => Dispatch::new(Box::new(c) as Box<dyn Collect + Send + Sync>),
         "arc" => Dispatch::new(Arc::new(c) as Arc<dyn Collect + Send + Sync>),
@@ -415,6 +469,8 @@ fn child() {
             }),
             o => panic!("op {o}"),
         };
+        // did the composed collector run an `enabled` pass during this operation?
+        o["pass"] = json!(TAP_ENABLED.swap(0, std::sync::atomic::Ordering::SeqCst) > 0);
         let mut calls = drain(&log);
         calls.sort_by_key(|c| c["seq"].as_u64().unwrap_or(0));
         for c in calls.iter_mut() {
